@@ -16,7 +16,15 @@ source with container kinds renamed (plain-Python transcription `py_rename`, `py
 finalisation does not fail - except known finding K1 (TypeError unhashable raised inside
 convert_output_data while a set / dict key is built from a container element).  The set-like dict views
 (keys() / items(), of a builtin dict or a FrozenDict) are finalised into LISTS in iteration order under
-every option combination (theorem views_finalise); a failure there is a violation, not K1."""
+every option combination (theorem views_finalise); a failure there is a violation, not K1.
+ H. host histories (model: Model/HostHistory.lean, theorems Props/C10Hist.lean): one document object that the host changes
+    in place (append, set key, nested, a sub-document replaced by an equal copy / by a different one, delete) or replaces,
+    `$` evaluated on it with the SAME Statement object per engine, with fresh parses and through the provenances of
+    harness/paths.py, under all option sets; contexts bound once (`yaql.create_context(data=doc)`,
+    `ctx['$'] = convert_input_data(doc)`) and frozen copies kept by the host, evaluated later under several option sets;
+    every result is changed by the host afterwards.  Oracle: each evaluation returns the canonical form of the document AS
+    IT IS NOW - through a binding: as it was at bind time (doc-silent, modelled as implemented: a result that shows the
+    current document instead is reported as a model mismatch, not as a violation)."""
 import collections.abc
 import copy
 import itertools
@@ -51,7 +59,11 @@ TRUSTED = ['Python hashing modelled by the predicate `hashable` (list/dict/set/d
 ASSUMPTIONS = ['host leaves are None/bool/int/float/str/opaque hashable objects',
                'lazy sequences are finite and their iteration raises nothing (errors raised by lambdas while the '
                'finaliser iterates are evaluation errors, not finalisation errors)',
-               'a host frozenset is a generic iterable for convert_input_data (doc-silent, modelled as implemented)']
+               'a host frozenset is a generic iterable for convert_input_data (doc-silent, modelled as implemented)',
+               'host histories: in-place mutation is a new content of the same document cell; `Statement`, `YaqlEngine` and '
+               'contexts hold no conversion state (the model has none to hold; Memo is the contrasting design); '
+               'yaql.create_context(data=doc) converts at bind time - a context bound earlier shows the OLD document '
+               '(doc-silent, modelled as implemented)']
 
 SETLIKE = ('set', 'fset', 'kview', 'iview')        # collections.abc.Set
 VIEWS = ('kview', 'iview')                         # collections.abc.KeysView / ItemsView: finalised into lists
@@ -957,6 +969,19 @@ def run_history_case(real, drv, res, case, hist):
                 if f.key == 'unhashable-in-hash-position':
                     res.failures.append(f)
                     continue
+                if f.key == 'wrong-result' and o.startswith('evalBound') and out[0] == 'ok':
+                    now = penc(doc)
+                    try:
+                        live = matches(py_rename_marked(py_in(now), t2l, s2l), penc(out[1]))
+                    except Unknown:
+                        live = False
+                    if live:
+                        # plain data, equal to the document as it is NOW: the property text does not say which of the two a
+                        # binding made earlier shows (doc-silent; the code and the model convert at bind time)
+                        res.fail('mismatch', 'model-bind-time', 'host history: an evaluation through a binding made earlier returns the '
+                                 'document as it is now, the model (as the code did) the document as it was at bind time\n    %s' %
+                                 '\n    '.join(lines), short)
+                        continue
                 res.fail('oracle', 'roundtrip-history' if f.key == 'wrong-result' else f.key,
                          'host history, last line: %s (expected: %s in canonical types)\n    %s' % (f.what, what, '\n    '.join(lines)), short)
             if not ok:
@@ -1089,7 +1114,9 @@ def run(env, res):
                 'x 4 option combinations x iterator limits; B: random host documents through `$`; C: random compositions '
                 'of a pool of %d expressions and %d templates x 4 option combinations. distinct = distinct value / '
                 'expression; non-trivial = the value holds a container inside a container (A, B) or the expression '
-                'evaluates (C)' % (len(ATOMS), len(TEMPLATES)))
+                'evaluates (C); H: random host histories of 4-15 operations (mutate in place / replace / evaluate `$` '
+                'with the same, a fresh or a derived statement / bind a context or a frozen copy / evaluate through a '
+                'binding) over a random JSON-like document, distinct = distinct history' % (len(ATOMS), len(TEMPLATES)))
     if env['replay']:
         rp = json.load(open(env['replay']))
         if rp['case'].get('mode') == 'D':
@@ -1191,7 +1218,14 @@ LEVEL_TEXT = ('Lean 4 theorems over a code-shaped model of utils.convert_input_d
               'values are finalised become the list of keys / of [key, value] pairs, all options). The full claim "finalisation succeeds for every value under '
               'every option combination" is false of the code and unsatisfiable: current_fails / current_fails_full / '
               'current_fails_unsatisfiable (known finding K1). Tie: the compiled model and the real code are run on the '
-              'same random values, documents and expression results under the 4 option combinations and several limits.')
+              'same random values, documents and expression results under the 4 option combinations and several limits.  '
+              'Under host reuse (Model/HostHistory.lean: one document object mutated in place / replaced, `$` evaluated by '
+              'engines of any options, contexts bound by create_context(data=doc)): history_spec - for every history every '
+              'evaluation returns the finalised conversion of the document as it is at that time, every evaluation through a '
+              'bound context that of the document at bind time, under the options of the evaluating engine -, '
+              'roundtrip_history (= canon o of that document), memo_breaks_roundtrip (a statement remembering its last input '
+              'does not satisfy it); the harness runs generated host histories on the real code (same Statement object, fresh '
+              'parses, engine.copy / per-call options / YaqlInterface paths) against that model.')
 LEVEL_NOTE = ('trusted: Lean kernel; hand-written model Yaql/Model/Convert.lean; Python hashing as the predicate '
               '`hashable`; set/dict de-duplication not modelled (injective on success paths); the differential harness '
               'and its plain-Python transcription of the renaming. Known finding K1 (unhashable-in-hash-position) is '
